@@ -112,7 +112,9 @@ class _Col:
 def col_fixed_wf(s):
     """Options as Columns.options() produces them: ('pack', None, b), ('given', g >= 0, b), ('weight', w >= 0, b) with
     integer amounts (zero weights included); columns in box_columns hold box widgets -- stated for the columns in play."""
-    return both(pile_ri(s), n_items(s) < 2**10, 0 <= s.dividechars, s.dividechars < PARTMAX, 0 <= s.min_width, s.min_width < 2**12)
+    n = n_items(s)
+    return both(pile_ri(s), n < 2**10, 0 <= s.dividechars, s.dividechars < PARTMAX, 0 <= s.min_width, s.min_width < 2**12,
+                forall(0, n, lambda x: col_opts_ok(s, x)))
 
 
 def col_opts_ok(c, x):
@@ -124,7 +126,8 @@ def col_opts_ok(c, x):
 
 
 def assume_opts(c, *xs):
-    """The well-formedness of the options, at the columns in play (a precondition about every column: instantiated)."""
+    """The well-formedness of the options (the quantified conjunct of `col_fixed_wf`, a precondition), instantiated at the
+    columns in play so that the proofs do not depend on the solver instantiating it."""
     for x in xs:
         _memo("opts", _tid(x), lambda x=x: cur().assume(col_opts_ok(c, x)) or True)
 
